@@ -199,13 +199,13 @@ def main(tier):
         trace = os.path.join(wd, "trace.ndjson")
         # ---- what the rendered configuration models mean, according to MIT's profile library reading the same text (validates Krb5Conf / the renderer)
         import mitcross
-        mcf = mitcross.mit_conf_cross(wd, confs, 400 if not run.thorough else 4000)
+        mcf = mitcross.spec_stage(run, mitcross.mit_conf_cross, wd, confs, 400 if not run.thorough else 4000)
         run.extra["krb5conf_vs_mit_profile"] = {k: v for k, v in mcf.items() if k != "first"}
         if mcf.get("disagreements"):
             vlib.spec_validation_problem(run, "the configuration models and MIT's reading of their text disagree on %d values: %s" % (mcf["disagreements"], mcf["first"]))
         # ---- the resolution rule against MIT Kerberos' krb5_get_host_realm on the same configurations (validates RealmResolve, not gokrb5)
         import mitcross
-        mh = mitcross.mit_hostrealm_cross(wd, 150 if not run.thorough else 1500)
+        mh = mitcross.spec_stage(run, mitcross.mit_hostrealm_cross, wd, 150 if not run.thorough else 1500)
         run.extra["realmresolve_vs_mit"] = {k: v for k, v in mh.items() if k != "first"}
         if mh.get("disagreements"):
             vlib.spec_validation_problem(run, "RealmResolve and MIT's krb5_get_host_realm disagree on %d resolutions: %s" % (mh["disagreements"], mh["first"]))
